@@ -162,15 +162,16 @@ Definition backend_set_mode (s : cst) (a : addr) (m : mode) : cst :=
       if mode_eqb m ERR then stop_monitoring s1 i else s1
   end.
 
-(** setReplicaModeNoLock *)
+(** setReplicaModeNoLock (ends with UpdateVolStatus) *)
 Definition set_mode_nolock (s : cst) (a : addr) (m : mode) : cst :=
-  match aget (replicas s) a with
-  | None => s
-  | Some ERR => s
-  | Some _ =>
-      let s1 := upd_replicas s (map (fun p => if Nat.eqb (fst p) a then (fst p, m) else p) (replicas s)) in
-      backend_set_mode s1 a m
-  end.
+  update_vol_status
+    match aget (replicas s) a with
+    | None => s
+    | Some ERR => s
+    | Some _ =>
+        let s1 := upd_replicas s (map (fun p => if Nat.eqb (fst p) a then (fst p, m) else p) (replicas s)) in
+        backend_set_mode s1 a m
+    end.
 
 (** replicator.GetLatestSnapshot; None = error *)
 Definition all_rw_backends (s : cst) : bool := forallb (fun p => is_rw (fst (snd p))) (backends s).
@@ -265,7 +266,7 @@ Definition res_eqb (a b : res) : bool :=
   | _, _ => false end.
 
 Inductive event :=
-| Register (a : addr) (uuid : nat) (rev : Z) (rebuilding : bool) (fs : faults)
+| Register (a : addr) (uuid : nat) (rev : Z) (rebuilding : bool) (pick : option addr) (fs : faults)
 | Start (addrs : list addr) (fs : faults)
 | AddCheck (a : addr) (fs : faults)
 | AddCommit (a : addr) (fs : faults)
@@ -441,7 +442,7 @@ Definition reg_rev (s : cst) (a : option addr) : Z :=
   | Some x => match aget (registered s) x with Some r => rg_rev r | None => 0 end
   end.
 
-Definition do_register (s : cst) (a : addr) (uuid : nat) (rev : Z) (rebuilding : bool) (fs : faults)
+Definition do_register (s : cst) (a : addr) (uuid : nat) (rev : Z) (rebuilding : bool) (pick : option addr) (fs : faults)
   : cst * res * eff :=
   if Nat.eqb uuid 0 then (s, ROk, noeff)
   else
@@ -454,8 +455,7 @@ Definition do_register (s : cst) (a : addr) (uuid : nat) (rev : Z) (rebuilding :
         let sw : option (cst * list (addr * bool)) + (cst * res * eff) :=
           if signalled s1 then
             if match maxrev s1 with Some m => Nat.eqb m a | None => false end then
-              let '(s2, ok, sg) := signal_replica s1 fs in
-              if ok then inl (Some (s2, sg)) else inr (s2, RErr, mkeff sg None)
+              inl (Some (s1, []))      (* the signalled replica registers again: elect and signal below *)
             else if match maxrev s1 with Some m => flt fs m KAlive | None => true end then
               let s2 := match maxrev s1 with
                         | Some m => upd_registered s1 (adel (registered s1) m)
@@ -470,12 +470,26 @@ Definition do_register (s : cst) (a : addr) (uuid : nat) (rev : Z) (rebuilding :
             if rebuilding then (s2, ROk, mkeff sg0 None)
             else
               let s3 := match maxrev s2 with None => upd_leader s2 (Some a) (signalled s2) | Some _ => s2 end in
-              let s4 := if existsb (fun p => reg_rev s3 (maxrev s3) <? rg_rev (snd p)) (registered s3)
-                        then upd_leader s3 (Some a) (signalled s3) else s3 in
-              if Nat.leb (quorum (rf s4)) (length (registered s4)) then
-                let '(s5, ok, sg) := signal_replica s4 fs in
-                (s5, if ok then ROk else RErr, mkeff (sg0 ++ sg) None)
-              else (s4, ROk, mkeff sg0 None)
+              (* the loop over the registered, not rebuilding replicas moves the candidate to a strictly
+                 higher revision count; among several with the highest one the map order decides: [pick] *)
+              let cand := filter (fun p => negb (rg_rebuilding (snd p))) (registered s3) in
+              let best := fold_left Z.max (map (fun p => rg_rev (snd p)) cand) 0 in
+              let leader : option (option addr) :=
+                if best <=? reg_rev s3 (maxrev s3) then Some (maxrev s3)
+                else match pick with
+                     | Some p => if existsb (fun q => Nat.eqb (fst q) p && (rg_rev (snd q) =? best)) cand
+                                 then Some (Some p) else None
+                     | None => None
+                     end in
+              match leader with
+              | None => (s3, RInvalid, mkeff sg0 None)
+              | Some l =>
+                  let s4 := upd_leader s3 l (signalled s3) in
+                  if Nat.leb (quorum (rf s4)) (length (registered s4)) then
+                    let '(s5, ok, sg) := signal_replica s4 fs in
+                    (s5, if ok then ROk else RErr, mkeff (sg0 ++ sg) None)
+                  else (s4, ROk, mkeff sg0 None)
+              end
         end
     end.
 
@@ -524,7 +538,7 @@ Definition do_start (s : cst) (addrs : list addr) (fs : faults) : cst * res * ef
       match replicas s with
       | _ :: _ => (s, ROk, noeff)
       | [] =>
-          if negb (match maxrev s with Some m => Nat.eqb m a0 | None => false end) then (s, RErr, noeff)
+          if negb (signalled s) || negb (match maxrev s with Some m => Nat.eqb m a0 | None => false end) then (s, RErr, noeff)
           else
             let s0 := upd_csize (upd_backends (upd_replicas s []) []) maxint in
             let '(s1, r) := start_adds s0 fs addrs in
@@ -562,6 +576,9 @@ Definition do_add_commit (s : cst) (a : addr) (fs : faults) : cst * res :=
     match create_backend s0 fs a with
     | None => (s0, RErr)
     | Some (s1, i) =>
+        (* verifyReplicationFactor again, now that the lock is held *)
+        if Nat.eqb (rf s1) (length (replicas s1)) then (close_new s1 a, RErr)
+        else
         let '(s2, r) := add_replica_nolock s1 fs a i true in
         match r with
         | ROk => (update_checkpoint (update_vol_status s2) fs, ROk)
@@ -676,7 +693,7 @@ Definition do_resize (s : cst) (sz : Z) (fs : faults) : cst * res :=
 (** ** the step function *)
 Definition step (s : cst) (e : event) : cst * res * eff :=
   match e with
-  | Register a u r b fs => do_register s a u r b fs
+  | Register a u r b pick fs => do_register s a u r b pick fs
   | Start l fs => do_start s l fs
   | AddCheck a fs => let '(s1, r) := do_add_check s a fs in (s1, r, noeff)
   | AddCommit a fs => let '(s1, r) := do_add_commit s a fs in (s1, r, noeff)
